@@ -36,17 +36,17 @@ func (c Config) String() string {
 
 // World is the resolved program for one configuration.
 type World struct {
-	Cfg    Config
-	Dir    string
-	Fset   *token.FileSet
-	Pkgs   []*packages.Package
-	Prog   *ssa.Program
-	SSA    map[string]*ssa.Package // by import path
-	Sizes  types.Sizes
-	AllFns map[*ssa.Function]bool
-	NFuncs int // source functions of the module
+	Cfg      Config
+	Dir      string
+	Fset     *token.FileSet
+	Pkgs     []*packages.Package
+	Prog     *ssa.Program
+	SSA      map[string]*ssa.Package // by import path
+	Sizes    types.Sizes
+	AllFns   map[*ssa.Function]bool
+	NFuncs   int // source functions of the module
 	NInlined int // calls to trivial same-package helpers dissolved before SSA construction
-	pure   map[*ssa.Function]bool
+	pure     map[*ssa.Function]bool
 }
 
 // PureFunc: E1 says the function writes nothing but fresh memory and contains no
